@@ -53,6 +53,9 @@ CLAIMED = {
  "C14": ("exploration", "bounded-exhaustive small arrays over duplicate/nil pools and object pools + proptest long arrays in several initial orders against permutation/order/stability/reference oracles",
          "All arrays of length <=5 over {1,2,2.0,3,nil,nil} and {a,A,b,B,nil}, all object arrays of length <=4 with present/absent/nil/false properties, arrays up to 60 elements in random/sorted/reversed/organ-pipe order incl. mixed incomparable kinds. Oracles: permutation by multiset, non-decreasing with nil last, stability against a reference insertion sort, idempotence, reference results for uniq/compact/concat/map/where/first/last/size/slice/join.",
          "For mutually incomparable elements only permutation and absence of failure are claimed (statement).", "4.14"),
+ "C18": ("exploration", "bounded-exhaustive operation sequences over the real frame types against an abstract stack-of-maps model (small-scope state-space enumeration) + proptest longer sequences",
+         "Every sequence of <=3 (thorough <=4) of 28 operations (push plain/sandboxed scope with each of 9 data maps, push global layer, pop, set_global, set_index) from 3 caller maps, plus strided slices of the next lengths up to 6 and random sequences to 12, executed on StackFrame/SandboxedStackFrame/GlobalFrame over &dyn Runtime with real drops; after each sequence try_get == model for 8 paths, get agrees with try_get, roots() == resolving names, counters == model.",
+         "The abstract model (stack of maps with sandbox cut-off, nearest global layer, one counter map) is written from the statement and trusted; exhaustive only up to the stated length.", "4.18"),
 }
 
 NOT_YET = {
